@@ -213,7 +213,10 @@ static void writer_body(int rounds, int seedv) {
         case 0: case 1: if (sz < 12) mine.push_back(E(seedv + r)); break;
         case 2: if (sz < 12) mine.emplace(mine.begin() + sz / 2, seedv + r); break;
         case 3: if (sz < 12) mine.insert(mine.begin() + sz / 2, E(seedv)); break;
-        case 4: if (sz < 10) mine.insert(mine.begin(), 2, E(r)); else if (sz < 13) mine.insert(mine.begin() + sz / 2, CountIt<E>{r}, CountIt<E>{r + 2}); break;
+        case 4:
+          if (sz < 10 && (r / 10) % 2 == 0) mine.insert(mine.begin(), 2, E(r));
+          else if (sz < 10) mine.insert(mine.begin() + sz / 2, CountIt<E>{r}, CountIt<E>{r + 2});  // single-pass range, not at the end
+          break;
         case 5: if (sz > 0) mine.erase(mine.begin() + sz / 2); break;
         case 6: other.assign(3, E(r)); sink += (mine == other) + (mine < other); break;
         case 7: mine.swap(other); break;
